@@ -511,7 +511,7 @@ Proof.
       + reflexivity.
       + exact Hst.
   }
-  destruct o as [| |k|k|k v|k| | |]; try (cbn [expand] in H; exact (Hconnect _ _ H));
+  destruct o as [| |k|k|k v|k|k| | | |]; try (cbn [expand] in H; exact (Hconnect _ _ H));
     cbn [expand run] in H; unfold step in H; try rewrite Hr in H; cbn [negb] in H.
   - (* ClientClose *)
     cbn [negb with_sessions running] in H. rewrite Hr in H. cbn [negb] in H. inversion H; subst. clear H.
@@ -532,6 +532,10 @@ Proof.
     destruct (existsb (N.eqb k) (served ss)); inversion H; subst; clear H;
       apply rel_intro; cbn [trk running store served accepted up value]; try assumption; try reflexivity; try congruence.
   - (* Flood *)
+    inversion H; subst. apply rel_intro; assumption.
+  - (* Park *)
+    inversion H; subst. apply rel_intro; assumption.
+  - (* Release *)
     inversion H; subst. apply rel_intro; assumption.
   - (* SetDecode *)
     inversion H; subst. apply rel_intro; assumption.
